@@ -65,15 +65,16 @@ def intern(s):
     return _INTERN.setdefault(s, "t%d" % len(_INTERN))
 
 
-def run_line(app, calls, line):
-    from clikit.args import StringArgs
+def run_line(app, calls, line, argv=False):
+    from clikit.args import ArgvArgs, StringArgs
     from clikit.io.input_stream import StringInputStream
     from clikit.io.output_stream import BufferedOutputStream
 
     del calls[:]
     out, err = BufferedOutputStream(), BufferedOutputStream()
     try:
-        st = app.run(StringArgs(line), StringInputStream(""), out, err)
+        raw = ArgvArgs(["prog"] + line.split()) if argv else StringArgs(line)
+        st = app.run(raw, StringInputStream(""), out, err)
     except BaseException as e:  # noqa
         st = "EXC:" + type(e).__name__
     return {"status": st if isinstance(st, int) else -1, "out": intern(out.fetch()), "err": intern(err.fetch() + ("" if isinstance(st, int) else st)),
@@ -83,10 +84,10 @@ def run_line(app, calls, line):
 def run_history(lines, kinds, explicit_parser=False):
     app, calls = build_app(explicit_parser)
     evs = []
-    for line, kind in zip(lines, kinds):
-        shared = run_line(app, calls, line)
+    for n, (line, kind) in enumerate(zip(lines, kinds)):
+        shared = run_line(app, calls, line, argv=(n % 2 == 1))   # command-string and argv form alternate
         fapp, fcalls = build_app(explicit_parser)
-        fresh = run_line(fapp, fcalls, line)
+        fresh = run_line(fapp, fcalls, line, argv=(n % 2 == 1))
         evs.append({"kind": kind, "line": line, "shared": shared, "fresh": fresh})
     return evs
 
